@@ -227,5 +227,42 @@ __CPROVER_requires(__CPROVER_is_fresh(value, sizeof(Variant)))
 GATE_POST(NAME_LEGAL(name))
 NIX_CANARY(Section_createProperty_value) __CPROVER_assigns(nix_exc, gh_creates, gh_created_id, gh_has_queries, gh_key_id)
 ;
+
+/* ---- Block::createDataFrame (include/nix/Block.hpp, header-defined) ----
+   "duplicate or invalid name, empty type ... nothing is created, removed, renamed, re-identified": the same gate as the other create functions, plus the column
+   rules (an unsupported column type, a column name used twice) - a rejected call of any of these kinds leaves the back end's create primitive unreached.
+   std::set<std::string>::insert and Variant::supports_type are ghosts that answer arbitrarily and remember whether they reported a problem. */
+#ifdef DF_BOUNDED
+#define DF_NMAX DF_BOUNDED
+#else
+#define DF_NMAX VEC_MAX
+#endif
+typedef struct { int _h; } DataFrame;
+typedef struct { nstring name; DataType dtype; } Column;
+typedef struct { Column *data; size_t n; } vec_Column;
+typedef struct { int _s; } set_nstr;
+extern int gh_col_problem;
+_Bool nondet_bool(void);
+static inline bool Variant_supports_type(DataType t)
+{ bool ok = nondet_bool(); if (!ok) gh_col_problem = 1; return ok; }
+static inline bool set_nstr_insert(set_nstr *s, nstring v)
+{ bool fresh = nondet_bool(); if (!fresh) gh_col_problem = 1; return fresh; }
+static inline bool Block_hasDataFrame(const Block *self, nstring name_or_id)
+{ __CPROVER_assert(NSTR_WF(&name_or_id), "string id in range"); gh_has_queries++; gh_key_id = name_or_id.id; return gh_exists[name_or_id.id]; }
+DataFrame Block_backend_createDataFrame(const Block *self, const nstring *name, const nstring *type, const vec_Column *cols, const Compression *compression)
+CREATE_PRE(name, type)
+__CPROVER_requires(/*only-columns-of-supported-type-and-distinct-names-reach-the-back-end*/ gh_col_problem == 0)
+CREATE_POST(name)
+;
+NIX_THROWS DataFrame Block_createDataFrame(Block *self, const nstring *name, const nstring *type, const vec_Column *cols, const Compression *compression)
+GATE_PRE(Block_createDataFrame, Block)
+TYPE_FRESH __CPROVER_requires(__CPROVER_is_fresh(compression, sizeof(Compression)) && __CPROVER_is_fresh(cols, sizeof(vec_Column)) && cols->n <= DF_NMAX && __CPROVER_is_fresh(cols->data, (cols->n ? cols->n : 1) * sizeof(Column)) && gh_col_problem == 0)
+  __CPROVER_ensures(/*illegal-name-or-empty-type-rejected*/ !(NT_OK) ==> (nix_exc != EXC_NONE && nix_exc != EXC_DuplicateName))
+  __CPROVER_ensures(/*duplicate-name-rejected*/ ((NT_OK) && gh_exists[name->id]) ==> nix_exc == EXC_DuplicateName)
+  __CPROVER_ensures(/*rejected-call-leaves-the-back-end-untouched*/ nix_exc != EXC_NONE ==> gh_creates == __CPROVER_old(gh_creates))
+  __CPROVER_ensures(/*a-column-problem-rejects-the-call*/ gh_col_problem ==> nix_exc != EXC_NONE)
+  __CPROVER_ensures(/*accepted-call-creates-exactly-that-name-once*/ ((NT_OK) && !gh_exists[name->id] && !gh_col_problem) ==> (nix_exc == EXC_NONE && gh_creates == __CPROVER_old(gh_creates) + 1 && gh_created_id == name->id))
+NIX_CANARY(Block_createDataFrame) __CPROVER_assigns(nix_exc, gh_creates, gh_created_id, gh_has_queries, gh_key_id, gh_col_problem)
+;
 #undef RV
 #endif
